@@ -10,7 +10,7 @@ PROP = "C15"
 LEVEL = "model_checking"
 ANCHOR_PREFIXES = ["context::", "transform::", "reuse::", "expression::eval_vars", "expression::eval_attr", "loop_el::"]
 BOUNDS = ("programs of <= 7 nodes, nesting depth <= 3, over {<var k>, <var j>, chained <var k j=$k>, swap <var k=$j j=$k>, <g k=..>, <g>, <reuse k=..> of a probing template in <specs>, "
-          "<reuse> of a template whose evaluation needs a forward reference, <loop count=2>, <if test=1>, probe, probe carrying a forward reference}; plus <var> elements that themselves need a forward reference (plain, swap, chained, accumulating); two variable names; every definition a distinct symbolic integer in [-1000,1000]; "
+          "<reuse> of a template whose evaluation needs a forward reference, <loop count=2>, <if test=1>, probe, probe carrying a forward reference}; plus <var> elements that themselves need a forward reference (plain, swap, chained, accumulating); three variable names (one hyphenated, read through ${...}); every definition a distinct symbolic integer in [-1000,1000]; "
           "probes read $k and $j through pass-through attributes; generated from a seeded grammar (thorough: 20000 programs, quick: 2500)")
 ASSUMPTIONS = ["scopes are opened by <g>/<symbol> and <reuse> (docs expressions.md 'attribute locals'); <loop>/<if> do not open a scope; <var> assigns into the innermost open scope",
                "all attributes of one <var> read the bindings in force before it; an undefined $name is left verbatim"]
@@ -22,15 +22,15 @@ VDOM = (-1000, 1000, 0)
 def gen_items(rnd, depth, budget, top=False):
     items = []
     n = rnd.randint(1, 3 if not top else 4)
-    kinds = ["var_k", "var_j", "chain", "swap", "probe", "probe", "fwd", "g_k", "g0", "reuse", "reuse_e", "loop", "if"]
+    kinds = ["var_k", "var_j", "chain", "swap", "probe", "probe", "fwd", "g_k", "g0", "reuse", "reuse_e", "reuse_f", "g_h", "var_h", "loop", "if"]
     for _ in range(n):
         if budget[0] <= 0:
             break
         k = rnd.choice(kinds)
-        if k in ("g_k", "g0", "loop", "if") and depth >= 3:
+        if k in ("g_k", "g0", "g_h", "loop", "if") and depth >= 3:
             k = "probe"
         budget[0] -= 1
-        if k in ("g_k", "g0", "loop", "if"):
+        if k in ("g_k", "g0", "g_h", "loop", "if"):
             items.append([k, gen_items(rnd, depth + 1, budget)])
         else:
             items.append([k])
@@ -53,6 +53,13 @@ def templates(tier, seed):
         [["var_k"], ["if", [["g_k", [["fwd"]]]]], ["probe"]],
     ]
     fixed += [
+        [["g_k", [["probe"]]], ["probe"]],                                  # first scope opened on an empty stack
+        [["reuse"], ["probe"]],
+        [["g_k", [["var_j"], ["probe"]]], ["probe"], ["var_k"], ["probe"]],
+        [["var_k"], ["g_k", [["reuse_f"], ["probe"]]], ["probe"]],
+        [["var_k"], ["reuse_f"], ["probe"], ["reuse"], ["probe"]],
+        [["var_h"], ["g_h", [["probe"], ["reuse"]]], ["probe"]],
+        [["g_h", [["probe"], ["g_h", [["probe"]]], ["probe"]]], ["probe"]],
         [["var_k"], ["reuse_e"], ["probe"]],
         [["var_k"], ["var_j"], ["reuse_e"], ["reuse"], ["probe"]],
         [["var_k"], ["g_k", [["reuse_e"], ["probe"]]], ["reuse"], ["probe"]],
@@ -137,8 +144,8 @@ def render(items, ren, stack, in_scope_with_fwd=None):
             stack[-1]["j"] = ok if ok is not None else "lit:$k"
         elif k in ("probe", "fwd"):
             pos = 'xy="#later|h 1" ' if k == "fwd" else ""
-            ren.doc.append(f'<rect {pos}wh="1" data-p="$k" data-q="$j"/>')
-            ren.expect.append(dict(k=lookup(stack, "k"), j=lookup(stack, "j")))
+            ren.doc.append(f'<rect {pos}wh="1" data-p="$k" data-q="$j" data-r="${{line-gap}}"/>')
+            ren.expect.append(dict(k=lookup(stack, "k"), j=lookup(stack, "j"), h=lookup(stack, "line-gap")))
             if k == "fwd":
                 ren.has_fwd = True
                 ren.features.add("fwd")
@@ -159,16 +166,39 @@ def render(items, ren, stack, in_scope_with_fwd=None):
             v = ren.newvar()
             ren.doc.append(f'<reuse href="#tpl" k="[[{v}]]"/>')
             stack.append({"k": v})
-            ren.expect.append(dict(k=lookup(stack, "k"), j=lookup(stack, "j")))
+            ren.expect.append(dict(k=lookup(stack, "k"), j=lookup(stack, "j"), h=lookup(stack, "line-gap")))
             stack.pop()
             ren.features.add("reuse")
+        elif k == "var_h":
+            v = ren.newvar()
+            ren.doc.append(f'<var line-gap="[[{v}]]"/>')
+            if ren.has_fwd:
+                ren.features.add("assign-after-fwd")
+            stack[-1]["line-gap"] = v
+        elif k == "g_h":
+            v = ren.newvar()
+            ren.doc.append(f'<g line-gap="[[{v}]]">')
+            stack.append({"line-gap": v})
+            render(it[1] if len(it) > 1 else [["probe"]], ren, stack)
+            stack.pop()
+            ren.doc.append("</g>")
+        elif k == "reuse_f":
+            # the instance itself carries a forward reference: the instantiation fails late (when the copy is generated)
+            v = ren.newvar()
+            ren.doc.append(f'<reuse href="#tplf" k="[[{v}]]"/>')
+            stack.append({"k": v})
+            ren.expect.append(dict(k=lookup(stack, "k"), j=lookup(stack, "j"), h=lookup(stack, "line-gap")))
+            stack.pop()
+            ren.has_fwd = True
+            ren.features.add("fwd")
+            ren.features.add("fwd-inside-scope")
         elif k == "reuse_e":
             # the instance cannot be evaluated until `later` is known: the scope pushed for the instantiation must not
             # survive the failed attempt
             v = ren.newvar()
             ren.doc.append(f'<reuse href="#tple" k="[[{v}]]"/>')
             stack.append({"k": v})
-            ren.expect.append(dict(k=lookup(stack, "k"), j=lookup(stack, "j")))
+            ren.expect.append(dict(k=lookup(stack, "k"), j=lookup(stack, "j"), h=lookup(stack, "line-gap")))
             stack.pop()
             ren.has_fwd = True
             ren.features.add("fwd")
@@ -220,15 +250,21 @@ def replay_render(items, ren, stack, nv_start):
                 stack[-1]["k"] = oj if oj is not None else "lit:$j"
                 stack[-1]["j"] = ok if ok is not None else "lit:$k"
             elif k in ("probe", "fwd"):
-                ren.expect.append(dict(k=lookup(stack, "k"), j=lookup(stack, "j")))
+                ren.expect.append(dict(k=lookup(stack, "k"), j=lookup(stack, "j"), h=lookup(stack, "line-gap")))
             elif k in ("g_k", "g0"):
                 stack.append({"k": nextvar()} if k == "g_k" else {})
                 go(it[1], stack)
                 stack.pop()
-            elif k in ("reuse", "reuse_e"):
+            elif k == "var_h":
+                stack[-1]["line-gap"] = nextvar()
+            elif k == "g_h":
+                stack.append({"line-gap": nextvar()})
+                go(it[1] if len(it) > 1 else [["probe"]], stack)
+                stack.pop()
+            elif k in ("reuse", "reuse_e", "reuse_f"):
                 v = nextvar()
                 stack.append({"k": v})
-                ren.expect.append(dict(k=lookup(stack, "k"), j=lookup(stack, "j")))
+                ren.expect.append(dict(k=lookup(stack, "k"), j=lookup(stack, "j"), h=lookup(stack, "line-gap")))
                 stack.pop()
             elif k == "loop":
                 nv = counter[0]
@@ -293,7 +329,7 @@ def build(td, wrong=False):
     ren = Ren()
     stack = [{}]
     render(copy.deepcopy(td["prog"]), ren, stack)
-    doc = '<svg><specs><rect id="tpl" wh="1" data-p="$k" data-q="$j"/><rect id="tple" wh="1" data-p="$k" data-q="$j" data-w="{{#later~w}}"/></specs>' + "".join(ren.doc) + '<rect id="later" xy="0" wh="2"/></svg>'
+    doc = '<svg><specs><rect id="tpl" wh="1" data-p="$k" data-q="$j" data-r="${line-gap}"/><rect id="tple" wh="1" data-p="$k" data-q="$j" data-r="${line-gap}" data-w="{{#later~w}}"/><rect id="tplf" xy="#later|h 2" wh="1" data-p="$k" data-q="$j" data-r="${line-gap}"/></specs>' + "".join(ren.doc) + '<rect id="later" xy="0" wh="2"/></svg>'
     expect = ren.expect
     feats = ren.features
     # role signatures for known-finding matching.  The unit that is re-evaluated because of a forward reference is the
@@ -301,10 +337,10 @@ def build(td, wrong=False):
     # later item are what a re-evaluation can wrongly observe.
     def has(items, kinds):
         return any(it[0] in kinds or (len(it) > 1 and has(it[1], kinds)) for it in items)
-    first_fwd = next((i for i, it in enumerate(td["prog"]) if has([it], ("fwd", "reuse_e"))), None)
+    first_fwd = next((i for i, it in enumerate(td["prog"]) if has([it], ("fwd", "reuse_e", "reuse_f"))), None)
     if first_fwd is not None:
-        assigns = ("var_k", "var_j", "chain", "swap")
-        if any(has([it], assigns) for i, it in enumerate(td["prog"]) if i > first_fwd or (has([it], ("fwd", "reuse_e")))):
+        assigns = ("var_k", "var_j", "var_h", "chain", "swap")
+        if any(has([it], assigns) for i, it in enumerate(td["prog"]) if i > first_fwd or (has([it], ("fwd", "reuse_e", "reuse_f")))):
             feats.add("assign-after-fwd")
     if "assign-after-fwd" in feats:
         role = "C15/deferred-element-sees-later-assignment"
@@ -317,18 +353,18 @@ def build(td, wrong=False):
         if r.status != "ok":
             return [Obl("transform-ok", FAIL, ground=True, note=r.docs[0]["msg"][:200])]
         o = Out(r.output)
-        probes = [e for e in o.all if e.get("data-p") is not None and o.tag(e) == "rect" and e.get("id") not in ("tpl", "tple")]
+        probes = [e for e in o.all if e.get("data-p") is not None and o.tag(e) == "rect" and e.get("id") not in ("tpl", "tple", "tplf")]
         obls = []
         if len(probes) != len(expect):
             return [Obl("probe-count", FAIL, ground=True, note=f"{len(probes)} outputs for {len(expect)} probes")]
         for i, (e, ex) in enumerate(zip(probes, expect)):
-            for nm, attr in (("k", "data-p"), ("j", "data-q")):
+            for nm, attr in (("k", "data-p"), ("j", "data-q"), ("h", "data-r")):
                 got = e.get(attr)
-                want = ex[nm]
+                want = ex.get(nm)
                 if wrong and i == len(expect) - 1 and nm == "k":
                     want = 0 if want != 0 else None
                 if want is None or (isinstance(want, str) and want.startswith("lit:")):
-                    lit = "$" + nm if want is None else want[4:]
+                    lit = ("${line-gap}" if nm == "h" else "$" + nm) if want is None else want[4:]
                     obls.append(Obl(f"probe{i}.${nm}-verbatim", PASS if got == lit else FAIL, ground=True, note=f"{got!r} expected {lit!r}"))
                 else:
                     try:
